@@ -179,7 +179,20 @@ pub fn sweep(prop: &str, seed: u64, n: u64, stride: u64, threads: usize, dir: &s
                                     outs.len()
                                 )));
                             } else {
-                                s.mismatches.push(format!("{} run {}: {}", prop, run, e));
+                                // does the disagreement go away when the simulated descriptors deliver
+                                // everything at once, as the pipe does?
+                                let mut plain = case.scn.clone();
+                                plain.stdin.plan.clear();
+                                plain.stdout.plan.clear();
+                                plain.stdin.bufreader_cap = 8192;
+                                plain.stdout.linewriter_cap = 1024;
+                                let h2 = crate::world::run_cli(&plain);
+                                let note = if plain != case.scn && matches!(compare(&h2, &r), Some(Ok(()))) {
+                                    " [the code under test behaves differently under chunked / interrupted delivery than under whole delivery: a C19 matter, not a simulator bug]"
+                                } else {
+                                    ""
+                                };
+                                s.mismatches.push(format!("{} run {}: {}{}", prop, run, e, note));
                             }
                         }
                     }
